@@ -150,7 +150,7 @@ struct Ctx {
     if (f != gnames.end()) return f->second;
     std::string n = san(g->getName());
     bool ext = g->isDeclaration();
-    if (ext && isa<Function>(g) && n.rfind("vf_", 0) != 0) n = "vfx_" + n;  // environment: must be provided by the harness runtime
+    if (ext && isa<Function>(g) && n.rfind("vf_", 0) != 0 && n.rfind("vfx_", 0) != 0) n = "vfx_" + n;  // environment: must be provided by the harness runtime
     while (usednames.count(n)) n += "_";
     usednames.insert(n);
     gnames[g] = n;
